@@ -60,7 +60,7 @@ func (f *Tagbody) Call(s *slip.Scope, args slip.List, depth int) slip.Object {
 			return tr
 		case *GoTo:
 			for i = 0; i < len(args); i++ {
-				if args[i] == tr.Tag {
+				if slip.SameTag(args[i], tr.Tag) {
 					break
 				}
 			}
